@@ -258,6 +258,57 @@ def section_tables(nsec=41):
     return out
 
 
+# ---------------------------------------------------------------- the package's own sub-interval tables (explained-by gate)
+_PK = {}
+_PKFAM = {(0, 0): 'integral_ff_12', (0, 1): 'integral_ffxi_12', (0, 2): 'integral_ffxixi_12', (1, 1): 'integral_fxifxi_12',
+          (1, 2): 'integral_fxifxixi_12', (2, 2): 'integral_fxixifxixi_12'}
+_PKLIB = None
+
+
+def _pklib():
+    global _PKLIB
+    if _PKLIB is None:
+        import ctypes
+        from .. import build
+        L = ctypes.CDLL(build.bardell_lib())
+        for nme in _PKFAM.values():
+            getattr(L, nme).restype = ctypes.c_double
+            getattr(L, nme).argtypes = [ctypes.c_double, ctypes.c_double, ctypes.c_int, ctypes.c_int] + [ctypes.c_double] * 8
+        _PKLIB = L
+    return _PKLIB
+
+
+def package_tables(x1, x2, n=NMAX):
+    """dict (da,db) -> (n,n) values returned by the package's sub-interval functions integral_*_12(x1, x2, i, j, flags=1) of the
+    CURRENT lib/src (compiled by the binder).  Used only to attribute a deviation to the floating-point evaluation of these
+    generated functions; never as the expected value of a property."""
+    key = (float(x1), float(x2), n)
+    if key in _PK:
+        return _PK[key]
+    L = _pklib()
+    one = [1.0] * 8
+    out = {}
+    for (da, db), nme in _PKFAM.items():
+        fn = getattr(L, nme)
+        T = np.array([[fn(key[0], key[1], i, j, *one) for j in range(n)] for i in range(n)])
+        out[(da, db)] = T
+        if da != db:
+            out[(db, da)] = T.T.copy()
+    if len(_PK) > 400:
+        _PK.clear()
+    _PK[key] = out
+    return out
+
+
+def norm_table(Tdict):
+    """Natural scale of each entry of the nine tables of one interval: N[(da,db)][i,j] = sqrt(int (D^da f_i)^2 * int (D^db f_j)^2)
+    (Cauchy-Schwarz bound of the exact entry; what a backward-stable evaluation is accurate relative to)."""
+    out = {}
+    for (da, db) in Tdict:
+        out[(da, db)] = np.sqrt(np.abs(np.outer(np.diag(Tdict[(da, da)]), np.diag(Tdict[(db, db)]))))
+    return out
+
+
 def flagvec(t1, r1, t2, r2, n=NMAX):
     v = np.ones(n)
     v[:4] = [t1, r1, t2, r2][:min(4, n)]
